@@ -218,3 +218,53 @@ def rule_none_guard(repo, res):
                                     "which is neither LexerError nor ParseError and escapes the loader", where=f"pvl/{mname}.py:{call.lineno}"))
     res.oblige("NONE-GUARD", f"{len(none_names)} grammar attribute(s) that a dialect sets to None; {n} method calls on them examined", ok=True, nontrivial=False)
     res.floor("grammar attributes set to None by some dialect", len(none_names), 1)
+
+
+def rule_getattr_name(repo, res):
+    """GETATTR-NAME: a grammar attribute looked up by a string -- `getattr(self.grammar, "leap_second_Yj_re", None)`, also
+    through a loop over a tuple of names -- names an attribute that some grammar class defines.  With a default, a
+    misspelt name is not an error: the look-up quietly yields the default for every grammar, and the branch that depends
+    on the table (the day-of-year leap-second pattern) is dead."""
+    defined = set()
+    for c in tables.grammar_classes(repo):
+        defined |= set(repo.classes[c].aliases)
+        for m in repo.classes[c].methods.values():
+            for a in ast.walk(m):
+                if isinstance(a, ast.Assign):
+                    for t in a.targets:
+                        if isinstance(t, ast.Attribute) and isinstance(t.value, ast.Name) and t.value.id == "self":
+                            defined.add(t.attr)
+        defined |= set(repo.classes[c].methods)
+    n = 0
+    for mname in ("decoder", "token", "lexer", "parser", "encoder"):
+        if mname not in repo.modules:
+            continue
+        mod = repo.module(mname)
+        fns = [(f"{mname}.{k}", v) for k, v in mod.functions.items()]
+        for cname in mod.classes:
+            if cname in repo.classes:
+                fns += [(f"{cname}.{k}", v) for k, v in repo.classes[cname].methods.items()]
+        for label, fn in fns:
+            for call in [x for x in ast.walk(fn) if isinstance(x, ast.Call) and norm(x.func) == "getattr" and len(x.args) >= 2]:
+                if norm(call.args[0]) not in ("self.grammar", "g", "grammar", "self.decoder.grammar"):
+                    continue
+                names = []
+                a = call.args[1]
+                if isinstance(a, ast.Constant) and isinstance(a.value, str):
+                    names = [a.value]
+                elif isinstance(a, ast.Name):
+                    # a loop variable over a literal tuple / list of names
+                    for lp in ast.walk(fn):
+                        if isinstance(lp, (ast.For, ast.comprehension)) and isinstance(lp.target, ast.Name) and lp.target.id == a.id \
+                                and isinstance(lp.iter, (ast.Tuple, ast.List)) and all(isinstance(e, ast.Constant) and isinstance(e.value, str) for e in lp.iter.elts):
+                            names = [e.value for e in lp.iter.elts]
+                for nm in names:
+                    n += 1
+                    ok = nm in defined
+                    res.oblige("GETATTR-NAME", f"{label}: getattr(<grammar>, {nm!r}, ...) names an attribute a grammar class defines", ok=ok)
+                    if not ok:
+                        res.add(Finding("GETATTR-NAME", label, f"getattr(<grammar>, {nm!r})",
+                                        f"{label} looks up `{nm}` on the grammar by name, but no grammar class defines an attribute of that "
+                                        "name: with a default the look-up never fails, it just never finds the table -- the code that "
+                                        "depends on it never runs", where=f"pvl/{mname}.py:{call.lineno}"))
+    res.oblige("GETATTR-NAME", f"{n} by-name look-ups of grammar attributes examined", ok=True, nontrivial=False)
